@@ -9,6 +9,17 @@ of tasks, priorities, callbacks.  The `_counterexample` theorems exhibit concret
 of the code AS FOUND (`Cfg.asFound`), or of the code after the round-1 patches only (`Cfg.round1`),
 that violate the same statements.
 
+WHO CALLS: the steps `execute`, `cancel`, `status`, `snapshot` are the critical sections of the API calls and
+carry no caller — they may be issued by the loop thread, by a completion callback, or by a task body running on a
+worker of the same pool (re-entrant use), in any interleaving with each other and with every worker step; the
+mutex makes each of them atomic whoever calls.  `pend` counts the notify_one() calls still owed by concurrent
+execute() callers.  NO theorem below needs "loop-thread only".  The one caller assumption left in `valid` is that
+no API call overlaps cleanup() (`inCleanup`; `pend = 0` when cleanup starts): needed by `C05_no_deadlock` /
+`C05_cleanup_joins_all` / `C05_final_accounting` (an execute() racing with cleanup could spawn a worker cleanup
+never joins — that is outside the property's quantifier too).  `C05_priority_fifo` speaks about the queue as it is at
+the pick: a nested submission is appended like any other (`undo ++ [t]` in `step`), so it is ordered by the moment
+its execute() critical section ran.
+
 Not expressible in this model (see LEVEL_NOTE): data-race freedom in the C++ memory model; real
 time.  "cleanup always terminates" is proved as deadlock freedom + a strictly decreasing rank
 per worker step (termination under fair scheduling of workers with terminating bodies).
@@ -195,6 +206,23 @@ theorem C05_priority_fifo (c : Cfg) (sts : List Step) (s : State) (he : exec (in
   obtain ⟨_, _, h3, h4⟩ := scanFrom_spec p.2 _ _ p.1 this
   exact ⟨List.mem_of_find?_eq_some h3, fun x hx => h4 x hx (Nat.zero_le _), h3⟩
 
+/-- **submission order = order of the execute() critical sections**, whoever calls: every accepted execute()
+— from the loop thread, a callback or a task body on a worker (nested submission) — appends its task at the BACK of
+the waiting queue; together with `C05_priority_fifo` (the pick takes the earliest entry of the best level) a nested
+submission never overtakes a same-priority task that was already waiting. -/
+theorem C05_execute_appends (s : State) (prio : Int) (cb : Bool) (h : s.done = false) :
+    (step s (.execute prio cb)).undo = s.undo ++ [{ id := s.nextTask, lvl := levelOf prio, cb := cb }] := by
+  simp only [step, h, Bool.false_eq_true, ↓reduceIte]
+  (repeat' split) <;> rfl
+
+/-- nested submission on a (1,1) pool: the worker is inside the body of task 0 when task 1 (loop thread) and then
+tasks 2, 3 (issued "by the body") are submitted; the picks are 1, 2, 3 -/
+example : (exec (init { min := 1, max := 1 })
+    [.execute 0 false, .notifyOne none, .enter 0, .execute 0 false, .notifyOne none, .execute 0 false, .execute 0 false,
+     .notifyOne none, .notifyOne none, .runBody 0, .postCb 0, .finish 0, .enter 0, .runBody 0, .postCb 0, .finish 0,
+     .enter 0, .runBody 0, .postCb 0, .finish 0, .enter 0, .runBody 0]).map (fun s => s.ranIds) = some [3, 2, 1, 0] := by
+  decide
+
 /-! ### workers -/
 
 /-- **max workers**: the cabinet never holds more than `max` threads and the number of worker
@@ -361,7 +389,7 @@ pending) and some worker is blocked in the wait, the mutex is free and there is 
 step is enabled and picks the best waiting task — a waiting task never coexists with "every idle worker
 asleep and nobody on the way". With fair scheduling every accepted task is therefore eventually picked. -/
 theorem C05_no_lost_wakeup (c : Cfg) (hf : c.fixed) (hok : c.ok = true) (sts : List Step) (s : State)
-    (he : exec (init c) sts = some s) (hs : s.stop = false) (hp : s.pend = false) (hu : s.undo ≠ [])
+    (he : exec (init c) sts = some s) (hs : s.stop = false) (hp : s.pend = 0) (hu : s.undo ≠ [])
     (hw : ∃ w, w < s.nW ∧ s.pc w = .waiting) :
     s.lock = false ∧ ∃ w t, w < s.nW ∧ s.pc w = .woken ∧ valid s (.reenter w) = true ∧
       popOne s.undo = some t ∧ (step s (.reenter w)).pc w = .running t := by
@@ -375,7 +403,7 @@ theorem C05_no_lost_wakeup (c : Cfg) (hf : c.fixed) (hok : c.ok = true) (sts : L
   obtain ⟨w0, hw0, hpw0⟩ := hw
   have hk : 0 < nWoken s := by
     rcases h.wake.K hs with a | a
-    · rw [hp] at a; simp only [pendN_false] at a; omega
+    · rw [hp] at a; omega
     · have := cntF_zero a w0 hw0; simp [hpw0, PC.isWaiting] at this
   obtain ⟨w, hwlt, hwk⟩ := cntF_pos hk
   have hpc : s.pc w = .woken := by
@@ -465,7 +493,7 @@ example : (exec (init { min := 0, max := 1 }) cxStranded).map (fun s => (s.undo.
 a second worker is still waiting -/
 example : (exec (init { min := 2, max := 2 })
     [.enter 0, .block 0, .enter 1, .block 1, .execute 0 false, .notifyOne (some 1)]).map
-      (fun s => (s.stop, s.pend, s.undo.length, s.pc 0 == .waiting, s.pc 1 == .woken)) = some (false, false, 1, true, true) := by
+      (fun s => (s.stop, s.pend, s.undo.length, s.pc 0 == .waiting, s.pc 1 == .woken)) = some (false, 0, 1, true, true) := by
   decide
 /-- `notifyOne none` is refused while a worker waits: notify_one must wake somebody -/
 example : (exec (init { min := 1, max := 1 }) [.enter 0, .block 0, .execute 0 false, .notifyOne none]).isSome = false := by
